@@ -197,6 +197,22 @@ def check_refcount_pairing(ctx):
                   and "used_streams" in show(dg.expr(c_["args"][0]))]
             if len(tk) == 1:
                 ok_n = True; rng = [("const", 0), n]
+        if not ok_n:
+            # hand-written index loop: `let mut i = 0; while i < n { ..; i += 1 }` -- a loop-carried counter that starts at 0, is bumped by one, and whose loop is left on
+            # the false side of `i < n` with the very value that was pre-loaded
+            import importlib
+            C04_ = importlib.import_module("props.C04")
+            cps_ = {cb_ for (cb_, _) in cp}
+            for h_, bl_ in body.loops.items():
+                if not cps_ <= bl_: continue
+                for (x_, y_) in body.loop_exits(h_):
+                    c_ = D.cmp_of_switch(body, dg, x_)
+                    cb2 = D.canon_branch(c_) if c_ else None
+                    if not cb2 or cb2[0] != "lt" or cb2[4] != y_: continue
+                    a_, b_ = strip_casts(cb2[1]), strip_casts(cb2[2])
+                    starts0 = a_[0] == "phi" and len(a_) > 3 and any(strip_casts(z) == ("const", 0) for z in a_[3])
+                    if C04_._is_loop_counter(a_) and starts0 and D.norm(b_) == D.norm(n):
+                        ok_n = True; rng = [("const", 0), n]
         ctx.ob("R17.2", f"{k}|preload-equals-trip-count", ok_n, body.loc(ib), f"increment_references({show(n)}) vs loop range {[show(x) for x in rng] if rng else None}; required: the same value bounds the loop")
         ctx.ob("R17.2", f"{k}|preload-before-first-copy", all(body.dominates(ib, cb) for (cb, _) in cp), body.loc(ib), "the count is raised before the first copy becomes visible to a consumer")
         cps = {cb for (cb, _) in cp}
